@@ -19,8 +19,35 @@ struct RegionData {
   ByteCell rest;                        // summary of every other byte
   uint8_t provAll = 0;                  // union of every provenance ever written into the region (monotone)
   std::bitset<256> wset; int64_t wlimit = -1;       // byte values ever written below offset wlimit (report region only)
+  std::vector<std::pair<int64_t, int64_t>> written;   // merged [lo,hi) intervals that have (possibly) been written since the region came to life
+  bool trackInit = false;                           // region starts with indeterminate content: reads of never-written bytes are reported
+  void addWritten(i128 a, i128 b) {
+    if (!trackInit || b <= a) return;
+    int64_t lo = (int64_t)std::max(a, (i128)0), hi = (int64_t)std::min(b, (i128)1 << 40);
+    std::vector<std::pair<int64_t, int64_t>> out;
+    for (auto &w : written) {
+      if (w.second < lo || w.first > hi) out.push_back(w);
+      else { lo = std::min(lo, w.first); hi = std::max(hi, w.second); }
+    }
+    out.emplace_back(lo, hi);
+    std::sort(out.begin(), out.end());
+    written.swap(out);
+  }
+  // first never-written byte in [a,b), or -1
+  int64_t firstUnwritten(i128 a, i128 b) const {
+    if (!trackInit) return -1;
+    int64_t pos = (int64_t)a;
+    for (auto &w : written) {
+      if (w.second <= pos) continue;
+      if (w.first > pos) break;
+      pos = w.second;
+      if (pos >= b) return -1;
+    }
+    return pos < b ? pos : -1;
+  }
   std::vector<std::pair<int64_t, int64_t>> nuls;   // each: a 0 byte was stored at one offset in [lo,hi] and not overwritten since
   void noteWrite(i128 a, i128 b, bool isNul) {          // write of [a,b)
+    addWritten(a, b);
     // any write invalidates terminators it may overwrite
     for (size_t i = 0; i < nuls.size();) { if (a <= nuls[i].second && b > nuls[i].first) nuls.erase(nuls.begin() + (long)i); else i++; }
     if (isNul && b - a >= 1) {
